@@ -59,6 +59,8 @@ struct Gen {
   Plan& p;
   model::GenOpts go;
   bool big = false;   // rare runs with containers of up to 1800 elements and strings of up to 70 KB
+  bool huge = false;  // very rare runs in which the first bulk insertion adds 60000..72000 elements (crosses 65536)
+  bool huge_done = false;
   Gen(uint64_t s, Plan& pl) : r(s), p(pl) {}
   std::string path() { std::string s; size_t n = r.below(4); for (size_t i = 0; i < n; i++) s += (char)r.below(256); return s; }
   std::string val(int depth = 2) { model::GenOpts g = go; g.max_depth = depth; return model::canon(model::gen_value(r, g)); }
@@ -99,7 +101,7 @@ struct Gen {
     op.s.push_back(pth);
     if (kn == "AddMember") { op.a.push_back((int64_t)r.below(2)); op.s.push_back(model::gen_key(r, go)); op.s.push_back(val(r.chance(1, 4) ? 2 : 1)); if (r.chance(1, 25)) op.fault = FT_STRCOPY_FAIL; }
     else if (kn == "RemoveMember") op.s.push_back(model::gen_key(r, go));
-    else if (kn == "PushBackN" || kn == "AddMemberN") { op.a.push_back((int64_t)(big ? r.below(1800) : (r.chance(1, 2) ? r.below(48) : r.below(12)))); op.a.push_back((int64_t)r.below(2)); }
+    else if (kn == "PushBackN" || kn == "AddMemberN") { if (huge && !huge_done) { huge_done = true; op.a.push_back((int64_t)r.range(60000, 72000)); } else op.a.push_back((int64_t)(big && !huge ? r.below(1800) : (r.chance(1, 2) ? r.below(48) : r.below(12)))); op.a.push_back((int64_t)r.below(2)); }
     else if (kn == "EraseMember" || kn == "Erase") { op.a.push_back((int64_t)r.below(8)); op.a.push_back((int64_t)r.below(r.chance(1, 2) ? 2 : 8)); op.a.push_back((int64_t)r.below(2)); }
     else if (kn == "MemberReserve" || kn == "Reserve") op.a.push_back((int64_t)(r.chance(1, 3) ? r.below(70) : r.below(20)));
     else if (kn == "PushBack") op.s.push_back(val(r.chance(1, 4) ? 2 : 1));
@@ -178,6 +180,7 @@ static void common_knobs(Plan& p, Gen& g, uint64_t rs, uint32_t chk) {
   if (g.r.chance(1, 3)) { static const int fl[] = {13, 14, 15, 24, 33, 40, 65, 70, 97, 130, 200}; g.go.family_len = fl[g.r.below(11)]; }
   { static const int64_t wa[] = {1, 1, 2, 4, 8}; p.knobs["walk_all_every"] = getenv("SIM_WALK") ? atoi(getenv("SIM_WALK")) : wa[g.r.below(5)]; }
   if (g.r.chance(1, 120)) { g.big = true; p.knobs["big"] = 1; g.go.huge_strings = true; }
+  else if (g.r.chance(1, 2500)) { g.big = true; g.huge = true; p.knobs["big"] = 2; }
   p.knobs["envseed"] = (int64_t)(mix64(rs ^ 0x77) >> 1);
   p.knobs["chk"] = chk;
   p.knobs["str_mode"] = (int64_t)g.r.below(3);
